@@ -70,6 +70,9 @@ var handledCRLExtensions = map[string]bool{
 }
 
 func FindExtension(oidString string, extensions *[]pkix.Extension) *pkix.Extension {
+	if extensions == nil {
+		return nil
+	}
 	for _, extension := range *extensions {
 		if extension.Id.String() == oidString {
 			return &extension
@@ -85,6 +88,9 @@ func CheckForCriticalUnhandledCRLExtensions(extensions *[]pkix.Extension) error 
 	//Issuing Distribution Point 2.5.27.(Not needed as we get this information from cert to check) (non-critical)
 	//Authority Information Access 1.3.6.1.5.5.7.1.1 - We expect the signing cert to be in the chain for now (non-critical)
 	//Issuer Alternative Name 2.5.29.18 - Currently we only support normal issuer field as used in most cases (non-critical)
+	if extensions == nil {
+		return nil
+	}
 	for _, extension := range *extensions {
 		if extension.Critical {
 			extensionIdStr := extension.Id.String()
